@@ -222,9 +222,11 @@ macro_rules! entry_silent {
             kind: $crate::table::Kind::Silent,
             run: |ctx| {
                 use pest_typed::RuleStruct;
+                use pest_typed::iterators::Pairs;
                 $crate::table::finish(
                     $crate::table::call::<$Rule, $($T)+<'static>>(ctx),
-                    |_t| None,
+                    // a silent rule is transparent: its token list is what it contributes to the pair tree
+                    |t| Some(format!("{:?}", t.self_or_children().iter().map(|x| x.to_thin()).collect::<Vec<_>>())),
                     |t| Some(Box::new($crate::table::LiveT(t.ref_inner().clone())) as Box<dyn $crate::table::Live>),
                 )
             },
